@@ -2,6 +2,7 @@ package c17
 
 import (
 	"fmt"
+	"net"
 	"os"
 	"strings"
 	"sync/atomic"
@@ -30,22 +31,67 @@ type opF struct {
 }
 
 type caseF struct {
-	Role string `json:"role"` // admin, userplus, user
-	Ops  []opF  `json:"ops"`
+	Role      string `json:"role"` // admin, userplus, user
+	Ops       []opF  `json:"ops"`
+	AdminPort bool   `json:"admin_port,omitempty"` // the gateway serves the admin API on a listener of its own (--admin-port)
+	Delete    bool   `json:"delete,omitempty"`     // at the end the account is deleted: its last secret must stop working too
+}
+
+var (
+	gwAdm  *gw.Proc
+	admTCP *s3c.TCP
+)
+
+// startAdminGW: a gateway whose admin API has its own port
+func startAdminGW() (*gw.Proc, *s3c.TCP, error) {
+	if gwAdm != nil && gwAdm.Alive() {
+		return gwAdm, admTCP, nil
+	}
+	var last error
+	for attempt := 0; attempt < 4; attempt++ {
+		sb, err := gw.NewSandbox("c17a")
+		if err != nil {
+			return nil, nil, err
+		}
+		l, err := net.Listen("tcp", "127.0.0.1:0")
+		if err != nil {
+			return nil, nil, err
+		}
+		addr := l.Addr().String()
+		l.Close()
+		p, err := gw.StartProc(gw.Config{SB: sb, ExtraArgs: []string{"--admin-port", addr}})
+		if err != nil {
+			last = err
+			continue
+		}
+		gwAdm, admTCP = p, &s3c.TCP{Addr: addr}
+		return gwAdm, admTCP, nil
+	}
+	return nil, nil, last
 }
 
 func secretF(tag string, n int) string { return fmt.Sprintf("sec-%s-%d-0123456789abcdef", tag, n) }
 
 func runF(c caseF) error {
 	p, _, err := startGW(false)
+	var admT s3c.Transport
+	if c.AdminPort {
+		var t *s3c.TCP
+		p, t, err = startAdminGW()
+		admT = t
+	}
 	if err != nil {
 		return fmt.Errorf("SETUP: %v", err)
 	}
 	if !p.Alive() {
 		return fmt.Errorf("gateway died: %s", p.Output())
 	}
+	if admT == nil {
+		admT = p
+	}
 	tag := fmt.Sprintf("f%dx%d", os.Getpid(), atomic.AddInt64(&caseNo, 1))
-	root := s3c.NewClient(p, gw.DefaultRoot)
+	s3root := s3c.NewClient(p, gw.DefaultRoot)
+	root := s3root.On(admT) // where account changes are made
 	acct := tag + "acct"
 	cur := 0
 	if r, err := root.CreateUser(acct, secretF(tag, 0), c.Role, 0, 0); err != nil || !(r.Status == 200 || r.Status == 201) {
@@ -53,17 +99,17 @@ func runF(c caseF) error {
 	}
 	defer root.Call("PATCH", "/delete-user", s3c.Q("access", acct), nil, nil)
 	bkt := tag + "b"
-	as := func(n int) *s3c.Client { return root.As(s3c.Creds{Access: acct, Secret: secretF(tag, n)}) }
+	as := func(n int) *s3c.Client { return s3root.As(s3c.Creds{Access: acct, Secret: secretF(tag, n)}) }
 	// the account's own bucket, so that every role can list and write it
-	if r, err := root.Call("PUT", "/"+bkt, nil, nil, nil); err != nil || !r.OK() {
+	if r, err := s3root.Call("PUT", "/"+bkt, nil, nil, nil); err != nil || !r.OK() {
 		return fmt.Errorf("SETUP: create bucket: %v %v", r, err)
 	}
 	if r, err := root.Call("PATCH", "/change-bucket-owner", s3c.Q("bucket", bkt, "owner", acct), nil, nil); err != nil || !r.OK() {
 		return fmt.Errorf("SETUP: change owner: %v %v", r, err)
 	}
 	defer func() {
-		root.Call("DELETE", "/"+bkt+"/k", nil, nil, nil)
-		root.Call("DELETE", "/"+bkt, nil, nil, nil)
+		s3root.Call("DELETE", "/"+bkt+"/k", nil, nil, nil)
+		s3root.Call("DELETE", "/"+bkt, nil, nil, nil)
 	}()
 	for i, o := range c.Ops {
 		where := fmt.Sprintf("step %d (%+v, current secret #%d)", i, o, cur)
@@ -71,7 +117,7 @@ func runF(c caseF) error {
 		case "change":
 			who := root
 			if o.Self && c.Role == "admin" {
-				who = as(cur)
+				who = as(cur).On(admT)
 			}
 			body := fmt.Sprintf("<MutableProps><Secret>%s</Secret></MutableProps>", secretF(tag, cur+1))
 			r, err := who.Call("PATCH", "/update-user", s3c.Q("access", acct), nil, []byte(body))
@@ -108,6 +154,25 @@ func runF(c caseF) error {
 			}
 		}
 	}
+	if c.Delete {
+		if r, err := root.Call("PATCH", "/delete-user", s3c.Q("access", acct), nil, nil); err != nil || !r.OK() {
+			return fmt.Errorf("delete-user answers %v %v", r, err)
+		}
+		for _, put := range []bool{false, true} {
+			req := &s3c.Req{Method: "GET", Path: "/" + bkt}
+			if put {
+				req = &s3c.Req{Method: "PUT", Path: "/" + bkt + "/k", Body: []byte("after delete-user")}
+			}
+			u := as(cur)
+			r, err := u.SendWith(req, u.Opt())
+			if err != nil {
+				return fmt.Errorf("SETUP: transport: %v", err)
+			}
+			if r.Status != 403 {
+				return fmt.Errorf("after delete-user was acknowledged a request signed with the account's last secret (#%d) answers %d %s", cur, r.Status, r.Code())
+			}
+		}
+	}
 	return nil
 }
 
@@ -129,6 +194,8 @@ func TestC17F(t *testing.T) {
 			}
 			return o
 		}), 2, 10).Draw(t, "ops")
+		c.AdminPort = rapid.IntRange(0, 2).Draw(t, "admin_port") == 0
+		c.Delete = rapid.IntRange(0, 2).Draw(t, "delete") == 0
 		ev.Trace("C17F", c)
 		changes, after := 0, false
 		for _, o := range c.Ops {
@@ -138,7 +205,7 @@ func TestC17F(t *testing.T) {
 				after = true
 			}
 		}
-		ev.Case(fmt.Sprintf("F|%+v", c), after, "F:role="+c.Role, fmt.Sprintf("F:changes=%d", min(changes, 3)))
+		ev.Case(fmt.Sprintf("F|%+v", c), after, "F:role="+c.Role, fmt.Sprintf("F:changes=%d", min(changes, 3)), fmt.Sprintf("F:admin-port=%v", c.AdminPort), fmt.Sprintf("F:deleted-at-end=%v", c.Delete))
 		ev.Sample("F:role="+c.Role, 1, c)
 		if err := runF(c); err != nil {
 			if strings.HasPrefix(err.Error(), "SETUP") {
